@@ -469,7 +469,14 @@ def run_obligation(prop, hname, fn, cfg, seed=0, timeout_ms=20000, max_paths=200
             except PathAbort as e:
                 res["notes"].append(f"path aborted: {e}")
                 res["status"] = "inconclusive"
-            except (ViolationFound, Unconfirmed, HarnessError):
+            except Unconfirmed as u:
+                if E.uncertain:
+                    # the path was entered on an 'unknown' feasibility verdict: most likely infeasible, say so
+                    res["notes"].append(f"unconfirmed candidate on a path of unknown feasibility: {u.label}")
+                    res["status"] = "inconclusive"
+                else:
+                    raise
+            except (ViolationFound, HarnessError):
                 raise
             except Exception as e:
                 # unexpected exception on a feasible path of the real code
